@@ -4,11 +4,11 @@ import (
 	"context"
 	"fmt"
 	"go/ast"
+	"go/token"
+	"go/types"
 	"os"
 	"os/exec"
 	"path/filepath"
-	"go/token"
-	"go/types"
 	"runtime/debug"
 	"sort"
 	"strings"
